@@ -674,6 +674,66 @@ example : (toyRun .aes128 ((toyEntry .aes128 [1, 2] (toyPlain 8) (toyPlain 3)).t
 example : (toyRun .aes128 ((toyEntry .aes128 [1, 2] (toyPlain 8) []).take 10 ++ List.replicate 10 0) 20 [1, 2] [] [4, 4]).map
     (fun r => (okVal r.1, r.2.1)) = some (some [], none) := by decide +kernel
 
+/-! ### K-I: the "non-empty" carve-out is decided by an attacker-writable field
+
+The property's tamper clause, as written: any change to the salt, verifier, ciphertext or code of a
+NON-EMPTY entry makes opening or reading fail rather than return altered data.  Whether an entry is
+"empty" is decided by `data_length = compressed_size - overhead`, and the compressed size is a header
+field outside the authentication code.  So a non-empty entry can be *presented* as empty: declare the
+compressed size to be the bare overhead (equivalently: cut the ciphertext out and let any ten bytes stand
+where the code is read).  `read` then returns `Ok(0)` at its first line (`aes_empty_entry_no_mac`); nothing
+is decrypted, nothing compared; under AE-2 no CRC stands behind it.  The caller receives "this entry is
+empty" for an entry whose content was 6 (or 3000) bytes: altered data, success. -/
+
+/-- The clause at full strength, over the model with the toy primitives: whatever bytes `payload'` and
+declared size `csize'` replace an honest non-empty entry, a read that completes returns the content. -/
+def TamperClause : Prop :=
+  ∀ (plain payload' : Bytes) (csize' : Nat) (bufs : List Nat) (out : Bytes) (m : Option (Bytes × Bytes)),
+    plain ≠ [] →
+    (toyRun .aes128 payload' csize' [1, 2] [] bufs).map (fun r => (okVal r.1, r.2.1, r.2.2)) =
+      some (some out, m, 0) →     -- every read succeeded, nothing is left to read
+    payload'.take 10 = (toyEntry .aes128 [1, 2] (toyPlain 8) plain).take 10 →   -- same salt and verifier
+    out = plain
+
+/-- **K-I, kernel-checked**: the honest 6-byte entry reads as its content; the SAME bytes with the
+declared compressed size 20 (the overhead of AES-128) read as a successful empty entry, the code never
+compared (`ghostMac = none`).  Replayed on the crate by corpus/aes.ops (`csize-field28of3028`). -/
+theorem tamper_clause_false : ¬ TamperClause := by
+  intro h
+  have w : (toyRun .aes128 (toyEntry .aes128 [1, 2] (toyPlain 8) (toyPlain 6)) 20 [1, 2] [] [4, 4]).map
+      (fun r => (okVal r.1, r.2.1, r.2.2)) = some (some [], none, 0) := by decide +kernel
+  have := h (toyPlain 6) _ 20 [4, 4] [] none (by decide) w rfl
+  exact absurd this (by decide)
+
+example : (toyRun .aes128 (toyEntry .aes128 [1, 2] (toyPlain 8) (toyPlain 6)) 26 [1, 2] [] [4, 4]).map
+    (fun r => (okVal r.1, r.2.2)) = some (some (toyPlain 6), 0) := by decide +kernel
+
+/-- The general fact behind the witness, for EVERY primitive triple, source and password: once the
+declared compressed size is the bare overhead, an accepted verifier is all that is ever checked. -/
+theorem declared_overhead_reads_empty {σ} (P : AesPrims) (S : Src σ) (mode : AesMode) (s s' : σ) (pw : Bytes)
+    (v0 : Valid σ)
+    (hv : validate P S mode (dataLength mode (mode.saltLength + 12)) s pw = (.ok (some v0), s')) (n : Nat) :
+    Valid.read P S v0 n = (.ok [], v0) ∧ v0.ghostMac = none := by
+  have e := dataLength_exact mode 0
+  rw [Nat.add_zero] at e
+  rw [e] at hv
+  exact ⟨(aes_empty_entry_no_mac P S mode s s' pw v0 hv n).1, (aes_empty_entry_no_mac P S mode s s' pw v0 hv n).2.1⟩
+
+/-- **What holds instead** (`_partial`; the full clause is `TamperClause`, refuted above): tamper
+detection for entries whose DECLARED data length is positive — `aes_eof_implies_mac` (and
+`entry_eof_implies_mac` at the level of `ZipFile::read`) under the hypothesis `0 < L`, where `L` is
+computed from the size field, not from what the producer encrypted. -/
+theorem tamper_detected_declared_nonempty_partial {σ} (P : AesPrims) (hW : P.WF) (S : Src σ) (mode : AesMode)
+    (L : Nat) (s s' : σ) (pw : Bytes) (v0 : Valid σ)
+    (hv : validate P S mode (some L) s pw = (.ok (some v0), s')) (hL0 : 0 < L) (hL : L < U64)
+    (bufs : List Nat) (out : Bytes) (v1 : Valid σ) (hrun : drain P S bufs v0 [] = (.ok out, v1))
+    (n : Nat) (hn : 0 < n) (heof : (Valid.read P S v1 n).1 = .ok []) :
+    v1.ghostCt.length = L ∧
+    v1.ghostMac = some ((P.hmac v0.hmacKey v1.ghostCt).take AUTH_CODE_LENGTH,
+                        (P.hmac v0.hmacKey v1.ghostCt).take AUTH_CODE_LENGTH) :=
+  let h := aes_eof_implies_mac P hW S mode L s s' pw v0 hv hL0 hL bufs out v1 hrun n hn heof
+  ⟨h.1, h.2.1⟩
+
 /-- A toy decoder whose compressed stream is complete after 3 bytes: it refills 4 bytes at a time
 and reports end-of-file once it has seen 3. State = number of bytes seen. -/
 def earlyDec : Decoder Nat :=
